@@ -33,9 +33,15 @@ func ProbeMain(args []string) int {
 		}
 		return 0
 	}
-	if len(args) >= 1 && args[0] == "hand" {
+	if len(args) >= 1 && (args[0] == "hand" || args[0] == "family" || args[0] == "family-thorough") {
 		bad := 0
-		for _, h := range HandPrograms() {
+		progs := HandPrograms()
+		if args[0] == "family" {
+			progs = FamilyPrograms("quick", probeSeed())
+		} else if args[0] == "family-thorough" {
+			progs = FamilyPrograms("thorough", probeSeed())
+		}
+		for _, h := range progs {
 			if len(args) > 1 && !strings.Contains(h.Name, args[1]) && "="+h.Name != args[1] {
 				continue
 			}
@@ -44,7 +50,7 @@ func ProbeMain(args []string) int {
 			}
 			tags, _ := Constructs(h.Source)
 			for _, m := range append(append([]string{}, allModes...), ModeOptT) {
-				if m == ModeOptT && h.Kind != "optimizer" {
+				if m == ModeOptT && h.Kind != "optimizer" && !strings.HasPrefix(h.Kind, "divergence") {
 					continue
 				}
 				if len(args) > 2 && args[2] != m {
@@ -115,4 +121,10 @@ func ProbeMain(args []string) int {
 		}
 	}
 	return 0
+}
+
+func probeSeed() uint64 {
+	var n uint64 = 1
+	fmt.Sscan(os.Getenv("VERIF_SEED"), &n)
+	return n
 }
